@@ -7,11 +7,14 @@ import (
 	"fmt"
 	mrand "math/rand"
 	"sort"
+	"strings"
 	"sync"
 	"sync/atomic"
 	"time"
 
+	"github.com/IBM/TSS/mpc/ps"
 	tss "github.com/IBM/TSS/types"
+	math "github.com/IBM/mathlib"
 
 	"verifharness/cluster"
 	"verifharness/common"
@@ -282,14 +285,17 @@ func unitC11orch(e common.Env, p *common.Part) {
 // ---- Sign through the orchestrator with stored share data of every kind (the "local precondition" clause) ----
 
 func unitC11sign(e common.Env, p *common.Part) {
-	p.Rule = "Sign through real LoudScheme / SilentScheme objects with the real BLS and PS signers, 3 signers, under a deadline of 150..250 ms, with stored share data of every kind: none, garbage, a truncated valid encoding, well-formed data of a key generation among fewer parties than there are signers, data of the other scheme, data of another key generation, valid data; oracle: every Sign returns (an error or a signature) within 5 s after its deadline, and so does a second Sign and a KeyGen issued on the same scheme objects afterwards (a call that leaves a lock held shows there); distinct key = (scheme, mode, data kind); non-trivial when the data is not the valid one"
-	kinds := []string{"none", "garbage", "truncated", "fewer-parties", "other-scheme", "another-keygen", "valid", "fewer-parties-at-one-node"}
+	p.Rule = "Sign through real LoudScheme / SilentScheme objects with the real BLS and PS signers, 3 signers, under a deadline of 150..250 ms, with stored share data of every kind: none, garbage, a truncated valid encoding, well-formed data of a key generation among fewer parties than there are signers, data of the other scheme, data of another key generation, valid data, PS data of a key generation for one attribute fewer / more than the signers are configured for (with a well-formed request); oracle: every Sign returns (an error or a signature) within 5 s after its deadline, and so does a second Sign and a KeyGen issued on the same scheme objects afterwards (a call that leaves a lock held shows there); distinct key = (scheme, mode, data kind); non-trivial when the data is not the valid one"
+	kinds := []string{"none", "garbage", "truncated", "fewer-parties", "other-scheme", "another-keygen", "valid", "fewer-parties-at-one-node", "one-attribute-fewer", "one-attribute-more"}
 	idx := 0
 	for _, sch := range []scheme{{Name: "bls"}, {Name: "ps", MsgLen: 1}} {
 		for _, silent := range []bool{false, true} {
 			for _, kind := range kinds {
 				idx++
 				if !e.Mine(idx) || p.ViolationCount() >= 3 {
+					continue
+				}
+				if strings.HasPrefix(kind, "one-attribute") && sch.Name != "ps" {
 					continue
 				}
 				mode := map[bool]string{false: "loud", true: "silent"}[silent]
@@ -324,6 +330,13 @@ func unitC11sign(e common.Env, p *common.Part) {
 						if u == 2 {
 							data[u] = deal(sch, 2, 2)[2]
 						}
+					case "one-attribute-fewer", "one-attribute-more":
+						// well-formed data of a PS key generation for one attribute fewer / more than the signers are configured for
+						// (2 attributes); the request to sign is a well-formed one for 2 attributes
+						L := map[string]int{"one-attribute-fewer": 1, "one-attribute-more": 3}[kind]
+						if st, _, err := dealPS(3, 3, L); err == nil {
+							data[u] = st[u]
+						}
 					case "other-scheme":
 						other := scheme{Name: "ps", MsgLen: 1}
 						if sch.Name == "ps" {
@@ -340,6 +353,13 @@ func unitC11sign(e common.Env, p *common.Part) {
 					}
 				}
 				s := sch
+				digest := []byte("digest-0123456789abcdef0123456789")
+				if strings.HasPrefix(kind, "one-attribute") {
+					s = scheme{Name: "ps", MsgLen: 2}
+					pp := ps.Setup(curve, 2)
+					req, _ := ps.Blind(&pp, curve, []*math.Zr{curve.HashToZr([]byte("a")), curve.HashToZr([]byte("b"))})
+					digest = req.Bytes()
+				}
 				cl := cluster.New(cluster.Config{Map: map[uint16]uint16{1: 1, 2: 2, 3: 3}, Silent: silent, Threshold: 2,
 					KGF: func(node uint16) tss.KeyGenerator { return s.newKG(node) },
 					SF:  func(node uint16) tss.Signer { return s.newSigner(node) }})
@@ -375,7 +395,6 @@ func unitC11sign(e common.Env, p *common.Part) {
 					}
 					return false, errs
 				}
-				digest := []byte("digest-0123456789abcdef0123456789")
 				steps := []struct {
 					what string
 					f    func(ctx context.Context, u uint16) error
